@@ -159,6 +159,7 @@ pub fn gen_random(seed: u64, idx: u64) -> Plan {
             body_limit: 65_536,
             api: if versioned { ApiKind::EchoVersioned } else { ApiKind::Echo },
             rt_override: None,
+            tls: false,
         },
         conns,
         shutdown: None,
